@@ -1,7 +1,194 @@
-(* C14 — property theorems only (being filled in). *)
+(* C14 — the dispatcher never runs a container twice at once or without holding its lock.
+   Property theorems only; each is closed by `exact` of a lemma from proofs/C14_*.v / proofs/C16_runq.v.
+   Models: model/C16_runq.v (runQueue), model/C14_sync.v (sync), model/C14_pool.v (worker.Pool, worker,
+   remoteRunner bookkeeping), model/C14_sys.v (transition system: the scheduler pass instantiated with
+   that pool + VMs/processes/probes/start commands), model/C14_e2e_run.v (judge of end-to-end logs).
+   Every model function used below is compared with the Go code by the harness stages runq, sync, wp. *)
 From Coq Require Import List ZArith Bool NArith.
-From AV Require Import model.C16_runq proofs.C16_runq.
+From AV Require Import model.C16_runq model.C14_sync model.C14_sync_run model.C14_pool model.C14_sys
+                       proofs.C16_runq proofs.C14_sync proofs.C14_pool proofs.C14_sys proofs.C14_thms.
+From AV Require model.C14_e2e_run proofs.C14_e2e model.C14_wp_run.
 Import ListNotations.
-Theorem C14_placeholder_psort : forall ents, Permutation.Permutation (psort ents) ents.
-Proof. exact psort_perm. Qed.
-Print Assumptions C14_placeholder_psort.
+Local Open Scope Z_scope.
+
+(* ------------------------------------------------------------------------------------------------ *)
+(* runQueue, for an arbitrary pool behaviour                                                        *)
+Section Pool.
+Variable P : Type.
+Variable p_quota : P -> bool * P.
+Variable p_kill p_create : N -> P -> bool * P.
+Variable p_start : N -> N -> P -> bool * P.
+Variable running : list N.   (* keys of pool.Running() *)
+Notation rq := (run_queue_sorted P p_quota p_kill p_create p_start running).
+
+(* a process is started only for a container that the queue cache shows Locked with priority >= 1 and
+   that pool.Running() does not report (hence never for a running, cancelled, completed, held or
+   re-queued one) *)
+Theorem C14_start_only_locked_positive : forall sorted u0 p it u r,
+  In (EStart it u r) (r_log (rq sorted u0 p)) ->
+  exists e, In e sorted /\ e_uuid e = u /\ e_it e = it /\ e_state e = Locked /\ 1 <= e_prio e /\ memN u running = false.
+Proof. exact (rq_start_only_locked_positive P p_quota p_kill p_create p_start running). Qed.
+
+(* leftovers are killed before (re)starting: StartContainer is called only immediately after
+   KillContainer(uuid) answered "no such process" *)
+Theorem C14_kill_before_start : forall sorted u0 p a it u r b,
+  r_log (rq sorted u0 p) = a ++ EStart it u r :: b -> exists a', a = a' ++ [EKill u false].
+Proof. exact (rq_kill_before_start P p_quota p_kill p_create p_start running). Qed.
+
+(* ... and before locking: lockContainer is spawned only for Queued, priority >= 1 containers without a
+   known process after KillContainer answered false *)
+Theorem C14_lock_only_queued : forall sorted u0 p u,
+  In u (r_locks (rq sorted u0 p)) ->
+  exists e, In e sorted /\ e_uuid e = u /\ e_state e = Queued /\ 1 <= e_prio e /\ memN u running = false /\
+            In (EKill u false) (r_log (rq sorted u0 p)).
+Proof. exact (rq_lock_only_queued P p_quota p_kill p_create p_start running). Qed.
+End Pool.
+Print Assumptions C14_start_only_locked_positive.
+Print Assumptions C14_kill_before_start.
+Print Assumptions C14_lock_only_queued.
+
+(* ------------------------------------------------------------------------------------------------ *)
+(* the pass over the real pool model                                                                *)
+
+(* nothing that Pool.Running() reports (starting, running, or exited and not yet forgotten) is started *)
+Theorem C14_run_queue_skips_running : forall sorted e it u r,
+  In (EStart it u r) (r_log (sched_pass sorted e)) -> ~ In u (map fst (pool_running (pe_pool e))).
+Proof. exact run_queue_skips_running. Qed.
+Print Assumptions C14_run_queue_skips_running.
+
+(* containers are started only on instances that are idle with IdleBehavior run: never held, draining,
+   booting, unknown or shut down *)
+Theorem C14_start_only_idle_run_workers : forall it u p id p',
+  pool_start it u p = (Some id, p') ->
+  exists w, In w (p_workers p) /\ w_id w = id /\ w_st w = WIdle /\ w_ib w = IRun /\ w_it w = it.
+Proof. exact start_only_idle_run_workers. Qed.
+Print Assumptions C14_start_only_idle_run_workers.
+
+(* ------------------------------------------------------------------------------------------------ *)
+(* sync                                                                                             *)
+
+(* cancelled / completed / re-queued / on hold with a lingering live process => that process is killed
+   (and by C14_start_only_locked_positive / C14_run_queue_skips_running it is not restarted) *)
+Theorem C14_finished_is_killed_not_restarted : forall ents running unknown qupd latch e,
+  In e ents -> rlook (e_uuid e) running = Some 0 ->
+  (e_state e = Complete \/ e_state e = Cancelled \/ e_state e = Queued \/
+   (e_prio e = 0 /\ (e_state e = Running \/ e_state e = Locked))) ->
+  memN (e_uuid e) latch = false ->
+  In (AKill (e_uuid e)) (sync ents running unknown qupd latch).
+Proof. exact finished_is_killed. Qed.
+Print Assumptions C14_finished_is_killed_not_restarted.
+
+(* a process whose container is not in the queue at all is killed *)
+Theorem C14_orphan_killed : forall ents running unknown qupd latch u t,
+  rlook u running = Some t -> ~ In u (map e_uuid ents) -> memN u latch = false ->
+  In (AKill u) (sync ents running unknown qupd latch).
+Proof. exact orphan_killed. Qed.
+Print Assumptions C14_orphan_killed.
+
+(* per-container operation latch: no cancel/kill/requeue while another operation on that uuid is in flight *)
+Theorem C14_latch_exclusive : forall ents running unknown qupd latch a,
+  In a (sync ents running unknown qupd latch) -> memN (act_uuid a) latch = true -> exists u, a = AForget u.
+Proof. exact latch_exclusive. Qed.
+Print Assumptions C14_latch_exclusive.
+
+Theorem C14_one_action_per_entry : forall running unknown qupd e, (List.length (sync_ent running unknown qupd e) <= 1)%nat.
+Proof. exact one_action_per_entry. Qed.
+Print Assumptions C14_one_action_per_entry.
+
+(* the boolean specification of the sync stage is the Prop-level one, and the model meets it *)
+Theorem C14_sync_spec_reflects : forall c, C14_sync_run.spec_b c = true <-> SyncSpec c.
+Proof. exact sync_spec_reflects. Qed.
+Print Assumptions C14_sync_spec_reflects.
+
+Theorem C14_sync_meets_spec : forall ents running unknown qupd latch, SyncSpec (model_obs ents running unknown qupd latch).
+Proof. exact sync_meets_spec. Qed.
+Print Assumptions C14_sync_meets_spec.
+
+(* ------------------------------------------------------------------------------------------------ *)
+(* the transition system: [run c labels (init_sys create)] executes ANY sequence of
+   scheduler passes on arbitrary queue contents / start commands returning / probes beginning and ending /
+   processes exiting / kills / give-ups / idle-behaviour changes / shutdowns / sweeps / cloud listings /
+   instances vanishing / dispatcher restarts.  A label whose environment guard fails makes [run] return
+   None; the guards are the assumptions A1-A6 written in model/C14_sys.v:
+     A1 an instance that is gone has no processes; A2 (stale locks) a pass does not start a container that
+     still has a process on an instance the pool has not discovered yet; A3 an instance given up by boot
+     timeout without ever having answered a probe runs no unknown process; A4 cloud listings are complete;
+     A5 probes and start commands of a replaced dispatcher die with it; A6 new instances run nothing.   *)
+
+(* the inductive invariant is preserved by every step *)
+Theorem C14_step_preserves_invariant : forall c l s s', Inv s -> step c l s = Some s' -> Inv s'.
+Proof. exact step_inv. Qed.
+Print Assumptions C14_step_preserves_invariant.
+
+(* mutual exclusion: in every reachable state no uuid occurs twice among all live crunch-run processes
+   of all VMs and all start commands in flight (not on two instances, not twice on one) *)
+Theorem C14_mutual_exclusion : forall c create ls s,
+  run c ls (init_sys create) = Some s ->
+  NoDup (flat_map v_procs (s_vms s) ++ flat_map (fun w => map ru (w_starting w)) (p_workers (pe_pool (s_env s)))).
+Proof. exact mutual_exclusion. Qed.
+Print Assumptions C14_mutual_exclusion.
+
+(* bookkeeping covers processes: a live process on an instance whose worker is known and not Unknown is
+   in that worker's starting/running set, hence reported by Pool.Running() *)
+Theorem C14_bookkeeping_covers_processes : forall c create ls s v w u,
+  run c ls (init_sys create) = Some s ->
+  In v (s_vms s) -> find_w (v_id v) (p_workers (pe_pool (s_env s))) = Some w -> w_st w <> WUnknown ->
+  In u (v_procs v) -> In u (map ru (w_starting w) ++ map ru (w_running w)).
+Proof. exact bookkeeping_covers_processes. Qed.
+Print Assumptions C14_bookkeeping_covers_processes.
+
+(* the system is not vacuous: create, boot, start container 7, restart, rediscover, schedule again: one process *)
+Theorem C14_demo_run :
+  match run cfg0 demo_run (init_sys [0%N]) with
+  | Some s => all_procs s = [7%N] /\ map (fun w => (w_id w, w_st w, wbook w)) (p_workers (spool s)) = [(1%N, WRunning, [7%N])]
+  | None => False
+  end.
+Proof. exact demo_run_ok. Qed.
+Print Assumptions C14_demo_run.
+
+(* what A2 excludes: right after a restart, before the old process is rediscovered, a pass on the same
+   Locked entry is not a step (the code relies on fixStaleLocks + the stale-lock timeout here) *)
+Theorem C14_restart_needs_A2 :
+  match run cfg0 [LSched [ent1]; LProbeBegin 1 true true false false; LProbeEnd 1; LSched [ent1]; LLands 1 7 true;
+                  LSched [mkent 8 Locked 4 0]; LProbeBegin 2 true true false false; LProbeEnd 2;
+                  LRestart; LPoolSync []; LProbeBegin 2 true true false false; LProbeEnd 2] (init_sys [0%N; 0%N]) with
+  | Some s => step cfg0 (LSched [ent1]) s = None /\ undiscovered s 7 = true
+  | None => False
+  end.
+Proof. exact restart_needs_A2. Qed.
+Print Assumptions C14_restart_needs_A2.
+
+(* ------------------------------------------------------------------------------------------------ *)
+(* evaluators of the worker stage and of the end-to-end stage                                        *)
+Import C14_wp_run.
+Theorem C14_wp_start_ok_spec : forall prev it u ob,
+  start_ok prev (OStart it u) ob = true <->
+  (ob_ret ob = 0%N \/ find_inst (ob_ret ob - 1) (ob_inst prev) = Some (2%N, 0%N)).
+Proof. exact wp_start_ok_spec. Qed.
+Print Assumptions C14_wp_start_ok_spec.
+
+Import C14_e2e_run C14_e2e.
+(* the judge of the end-to-end event log: at every arriving start command, in the state reached by the
+   events before it, the conditions of start_ok hold *)
+Theorem C14_e2e_judge_reflects : forall log, judge j0 log = true <-> E2ESpec log.
+Proof. exact judge_reflects. Qed.
+Print Assumptions C14_e2e_judge_reflects.
+
+Theorem C14_e2e_start_ok_spec : forall s t vm u b,
+  C14_e2e_run.start_ok s t vm u b = true <->
+  ~ In u (map snd (j_live s)) /\ ~ In u (map snd (j_infl s)) /\
+  In u (j_locked s) /\ (forall tc, lookZ u (j_cancelled s) = Some tc -> t <= tc + grace) /\
+  b = false /\ (forall tb, lookZ vm (j_bad s) = Some tb -> t <= tb + grace).
+Proof. exact start_ok_spec. Qed.
+Print Assumptions C14_e2e_start_ok_spec.
+
+Theorem C14_e2e_judge_rejects_double_start :
+  judge j0 [XLock 1 7; XStartBegin 2 1 7 false; XStartEnd 3 1 7 true; XStartBegin 12 2 7 false] = false.
+Proof. exact judge_rejects_double. Qed.
+Print Assumptions C14_e2e_judge_rejects_double_start.
+
+Theorem C14_e2e_judge_accepts_restart_after_exit :
+  judge j0 [XLock 1 7; XStartBegin 2 1 7 false; XStartEnd 3 1 7 true; XList 9 1 []; XUnlock 10 7; XLock 11 7;
+            XStartBegin 12 2 7 false; XStartEnd 13 2 7 true] = true.
+Proof. exact judge_accepts. Qed.
+Print Assumptions C14_e2e_judge_accepts_restart_after_exit.
